@@ -177,6 +177,23 @@ let handle (p : string) : string =
     Printf.sprintf "lv=%s;le=%s;lend=%s;class=%s%s:%s" (string_of_z v) (bool01 e) (string_of_n (end_offset t rest))
       f base (if e then "erange" else if end_offset t rest = N0 then "noconv" else "conv")
   | ["atoi"; h] -> Printf.sprintf "lv=%s;class=atoi" (string_of_z (atoi (txt h)))
+  (* operator<< on a caller's stream: printers are pure functions of the value, stream state unchanged *)
+  | "strm" :: ty :: adj :: base :: fill :: w :: n :: rest ->
+    let text = match ty, rest with
+      | "uid", [v] -> let q, r = N.div_eucl (n_of_string v) (two_pow 32) in Some (uid_to_string (q, r))
+      | "mac", [h] -> Some (mac_to_string (txt h))
+      | "cid", [h] -> Some (cid_to_string uuid_unparse (txt h))
+      | "dmx", [h] -> Some (dmx_to_string (txt h))
+      | "ip4", [h] -> Some (ipv4_to_string inet_ntop4 (txt h))
+      | "sa", [h; port] -> Some (sockaddr_to_string inet_ntop4 (txt h, n_of_string port))
+      | _ -> None in
+    let cls = Printf.sprintf ";class=strm-%s:adj%s-base%s-w%s" ty adj base (if w = "0" then "0" else "n") in
+    (match text with
+     | None -> "pure=1" ^ cls
+     | Some v -> "pure=1;s=" ^ hx (stream_seq (nat_of_int (ios w)) (n_of_int (ios fill)) (adj = "1") (base = "16")
+                                      (n_of_string n) v) ^ cls)
+  (* printers are pure, hence re-entrant: no conversion may go wrong when several threads print at once *)
+  | ["thr"; t; n; _] -> Printf.sprintf "mis=0;cnt=%d;class=thr%s" (5 * ios t * ios n) t
   | ["split"; d; h] ->
     let toks = string_split (txt d) (txt h) in
     Printf.sprintf "n=%d;t=%s;class=split" (List.length toks) (String.concat "," (List.map hx toks))
